@@ -23,7 +23,7 @@ var lockFiles = map[string]bool{"spin_lock.go": true, "utxo.go": true, "utxo_cac
 func runParent(r *ev.Run) {
 	// ---- (1) lock-protocol monitor on the SpinLock API ----
 	iters := r.N(40000, 400000)
-	for pi, pat := range []string{"readers+writers", "writers", "mixed2keys", "spenders"} {
+	for pi, pat := range []string{"readers+writers", "writers", "mixed2keys", "spenders", "read-a-write-b"} {
 		c := spawn("spin", pat, iters, r.Seed*10+int64(pi), 10*time.Minute)
 		if !judgeChild(r, c, "spin/"+pat) {
 			continue
@@ -46,6 +46,9 @@ func runParent(r *ev.Run) {
 		}
 		if sr.LeftLocked > 0 {
 			r.Violation("lock-protocol|left-locked", fmt.Sprintf("%d keys are still locked after every worker released (pattern %s)", sr.LeftLocked, pat), sr)
+		}
+		if sr.Unusable > 0 {
+			r.Violation("lock-protocol|key-unusable-at-quiescence", fmt.Sprintf("%d keys cannot be locked although nobody holds them (pattern %s): %s", sr.Unusable, pat, sr.First), sr)
 		}
 		if pi == 0 {
 			r.Sample(sr)
